@@ -441,7 +441,7 @@ class C23:
             "thread_safe": config == "threads" or (kind == "cmixin" and rng.chance(0.3)),
             "uptodate": rng.weighted([("fs-like", 5), ("sync", 3), ("none", 1)]),
             "switch_p": rng.choice([0.05, 0.3, 0.7]), "granularity": rng.choice(["line", "line", "opcode"]),
-            "factory": rng.chance(0.3),
+            "factory": rng.chance(0.3), "fs_links": rng.chance(0.25),
             # delegates of the choice loader that are caching loaders themselves (only their
             # get_source is used, so this must change nothing)
             "caching_delegates": kind == "cchoice" and rng.chance(0.3),
@@ -511,7 +511,17 @@ class C23:
         realm, ns, name = ident
         if realm == "fs":
             w.plan.enabled = False
-            w.fs.write("root/" + self._fs_rel(sc, name), v["text"], v["tick"] / 1e6)
+            rel = self._fs_rel(sc, name)
+            if sc.get("fs_links"):
+                # the search directory holds symbolic links to the real files (a deploy layout):
+                # an edit changes the target, the link itself never changes
+                w.fs.write("real/" + rel, v["text"], v["tick"] / 1e6)
+                link = w.fs.path("root/" + rel)
+                if not os.path.islink(link):
+                    os.makedirs(os.path.dirname(link), exist_ok=True)
+                    os.symlink(w.fs.path("real/" + rel), link)
+            else:
+                w.fs.write("root/" + rel, v["text"], v["tick"] / 1e6)
             w.plan.enabled = True
         elif realm == "dict":
             dict.__setitem__(w.dict_realm, name, v["text"])
@@ -1170,6 +1180,8 @@ class C23:
             yield {**sc, "factory": False}
         if sc.get("caching_delegates"):
             yield {**sc, "caching_delegates": False}
+        if sc.get("fs_links"):
+            yield {**sc, "fs_links": False}
         if sc.get("segments", 1) > 1:
             yield {**sc, "segments": 1}
         if sc["env_globals"]:
